@@ -178,7 +178,7 @@ def r2_2(ctx, rc):
             rc.ok({'exit': key}, key=key)
     rc.note('%d handlers and %d finally blocks on user-exception paths' % (
         nh, nf))
-    if nh < 5:
+    if nh < 3:      # root runner, build_file side, subbuild side
         raise AnalysisError('only %d handlers on user-exception paths' % nh)
 
 
@@ -221,7 +221,11 @@ def _isfile_of(ctx, lab, attr_or_param):
         return False
     if 'os.path.isfile' not in ctx.prog.resolve_call(a, lab[2]):
         return False
-    return attr_or_param(ctx.H.subst(a.args[0], lab[2], lab[3]))
+    e = ctx.H.subst(a.args[0], lab[2], lab[3])
+    try:
+        return attr_or_param(e, lab[2])
+    except TypeError:
+        return attr_or_param(e)
 
 
 def _own_filename(e):
@@ -256,14 +260,15 @@ def r2_4(ctx, rc):
     root = N['root']
     sgr = ctx.helpers_graph(root, stop=(N['commit'].qualname,
                                        N['rollback'].qualname))
-    cparam = _cache_param(ctx, root)
+    cparam, cnames = _cache_names(ctx, root)
 
-    def is_cache_name(e):
-        return isinstance(e, ast.Name) and e.id == cparam
+    def is_cache_name(e, func=None):
+        func = func or root
+        return isinstance(e, ast.Name) and (func.qualname, e.id) in cnames
 
     def backed_up_cache(x):
         return Q.is_done(x, bq) and x.call.args and is_cache_name(
-            x.call.args[0])
+            x.call.args[0], x.func)
     w = Q.first_unguarded(
         sgr, [sgr.entry], backed_up_cache,
         lambda x: Q.is_call(x, N['write'].qualname),
@@ -281,15 +286,70 @@ def r2_4(ctx, rc):
 
 def _cache_param(ctx, root):
     """The parameter of the root runner that is written by Cache.write."""
+    return _cache_names(ctx, root)[0]
+
+
+def _cache_names(ctx, root):
+    """(root parameter that names the cache file, {(function, local name)}
+    of its aliases in the root runner and in the private helpers it is
+    handed down to)."""
+    if ('cache_names', root.qualname) in ctx.memo:
+        return ctx.memo[('cache_names', root.qualname)]
+    prog = ctx.prog
     w = ctx.R.cache + '.write'
-    for call in ctx.prog.calls_in(root):
-        for g in ctx.prog.resolve_call(call, root):
-            if isinstance(g, Func) and g.qualname == w and call.args and \
-                    isinstance(call.args[0], ast.Name) and \
-                    call.args[0].id in root.params:
-                return call.args[0].id
-    raise AnalysisError('cannot identify the cache-file parameter of ' +
-                        root.qualname)
+    # functions reachable from the root through private builder helpers
+    fs = [root]
+    todo = [root]
+    while todo:
+        f = todo.pop()
+        for c in prog.calls_in(f):
+            for g in prog.resolve_call(c, f):
+                if isinstance(g, Func) and g.cls == root.cls and \
+                        not g.is_public and not g.is_ctor_call and \
+                        g not in fs:
+                    fs.append(g)
+                    todo.append(g)
+    # the written name, traced up to a root parameter
+    cparam = None
+
+    def up(f, name, depth=0):
+        if f is root:
+            return name if name in root.params else None
+        if depth > 4 or name not in f.params:
+            return None
+        for caller, call in prog.callers().get(f.qualname, []):
+            if caller in fs:
+                a = prog.bind_args(call, f).get(name)
+                if isinstance(a, ast.Name):
+                    r = up(caller, a.id, depth + 1)
+                    if r:
+                        return r
+        return None
+    for f in fs:
+        for call in prog.calls_in(f):
+            for g in prog.resolve_call(call, f):
+                if isinstance(g, Func) and g.qualname == w and call.args and \
+                        isinstance(call.args[0], ast.Name):
+                    cparam = cparam or up(f, call.args[0].id)
+    if cparam is None:
+        raise AnalysisError('cannot identify the cache-file parameter of ' +
+                            root.qualname)
+    names = {(root.qualname, cparam)}
+    grew = True
+    while grew:
+        grew = False
+        for f in fs:
+            for call in prog.calls_in(f):
+                for g in prog.resolve_call(call, f):
+                    if isinstance(g, Func) and g in fs:
+                        for p, a in prog.bind_args(call, g).items():
+                            if isinstance(a, ast.Name) and \
+                                    (f.qualname, a.id) in names and \
+                                    (g.qualname, p) not in names:
+                                names.add((g.qualname, p))
+                                grew = True
+    ctx.memo[('cache_names', root.qualname)] = (cparam, names)
+    return cparam, names
 
 
 def r2_5(ctx, rc):
@@ -655,7 +715,7 @@ def r2_9(ctx, rc):
     sg = ctx.helpers_graph(root, stop=(N['commit'].qualname,
                                       N['rollback'].qualname,
                                       N['remover'].qualname))
-    cparam = _cache_param(ctx, root)
+    cparam, cnames = _cache_names(ctx, root)
     wq = N['write'].qualname
     rmq = N['remover'].qualname
     rbq = N['rollback'].qualname
@@ -667,6 +727,8 @@ def r2_9(ctx, rc):
         if not x.call or not x.call.args:
             return False
         a = x.call.args[0]
+        if isinstance(a, ast.Name) and (x.func.qualname, a.id) in cnames:
+            return True
         if x.frame.parent is None:
             return isinstance(a, ast.Name) and a.id == cparam
         org = ctx.H.origins(a, x.func, x.cn)
@@ -714,7 +776,8 @@ def r2_9(ctx, rc):
 
     def edge_ok(a, b, lab):
         return not _isfile_of(
-            ctx, lab, lambda e: isinstance(e, ast.Name) and e.id == cparam)
+            ctx, lab, lambda e, func=None: isinstance(e, ast.Name) and (
+                (func or root).qualname, e.id) in cnames)
     seen = Q.reach_flags(sg, [sg.entry], avoid=backed, edge_ok=edge_ok)
     p = Q.flag_witness(sg, seen, removes_cache)
     key = 'remover of %s only after the old file was moved aside' % cparam
@@ -865,7 +928,10 @@ def r2_11(ctx, rc):
     has an owner even when two threads created/reserved it concurrently
     (R9.6)."""
     from .c09 import r9_6
+    from .c14 import r14_3
     r9_6(ctx, rc)
+    # ... and directories made before a failing mkdir are handed off
+    r14_3(ctx, rc)
 
 
 RULES = [
